@@ -1,0 +1,16 @@
+//go:build verif
+
+package gcsemu
+
+// Contracts for contract-based deductive verification (checked by /verif/govc).
+// This file contains comments only and is compiled only with the build tag "verif".
+
+//@ func validateConds
+//@   property C04
+//@   ensures (result == nil) <==> ((obj == nil && cond.GenerationMatch == 0 && cond.GenerationNotMatch == 0 && cond.MetagenerationMatch == 0 && cond.MetagenerationNotMatch == 0) || (obj != nil && !cond.DoesNotExist && (cond.GenerationMatch == 0 || obj.Generation == cond.GenerationMatch) && (cond.GenerationNotMatch == 0 || obj.Generation != cond.GenerationNotMatch) && (cond.MetagenerationMatch == 0 || obj.Metageneration == cond.MetagenerationMatch) && (cond.MetagenerationNotMatch == 0 || obj.Metageneration != cond.MetagenerationNotMatch)))
+//@   ensures result != nil ==> (uf_httpCode(result) == 412 || uf_httpCode(result) == 304)
+
+//@ func fmtErrorfCode
+//@   property C04
+//@   pure
+//@   ensures result != nil && uf_httpCode(result) == httpCode
